@@ -1,6 +1,8 @@
 import AfkakProps.Open.C19
 import Afkak.Monitor.C19
 import AfkakProofs.Producer.AccTrace
+import AfkakProofs.Producer.Stop
+import AfkakProofs.Producer.Once
 /-!
 # C19 — Batching thresholds, time limit and cancellation behave as documented
 Property theorems only.  Model: `Afkak/Producer.lean`; monitors: `Afkak/Monitor/C19.lean`.
@@ -22,8 +24,50 @@ theorem C19_accounting_state (cfg : Cfg) (evs : List Ev) :
   | nil => intro st h; exact h
   | cons e rest ih => intro st h; simp only [run]; exact ih _ (step_acc cfg st e h)
 
-/-! Non-vacuity: counters move and come back to zero through cancels. -/
+/-- Stop transmits nothing further — for ANY state `st` (reachable or not) in which `stop` is enabled,
+    any answer of the client to the cancels (`pout`, `mouts`, `wipe`), and ANY later event list: neither
+    the `stop` step nor any later step emits a `produce` or a `loadMeta` observation.  (F8: before the
+    fix the real client's answer to the cancel scheduled a retry and the payloads went out after stop.) -/
+theorem C19_stop_transmits_nothing (cfg : Cfg) (st : St) (wipe : Bool) (pout : Option ProdRes)
+    (mouts : List (Rid × MetaRes)) (hv : stopValid st pout = true) (later : List Ev) :
+    noTx (step cfg st (.stop wipe pout mouts)).2 ∧
+    noTx (run cfg (step cfg st (.stop wipe pout mouts)).1 later).2 := by
+  obtain ⟨h1, h2⟩ := stop_establishes cfg st wipe pout mouts hv
+  exact ⟨h1, run_after_stop cfg _ later h2⟩
+
+/-- Stop fires every outstanding send before it returns: afterwards `_outstanding` is empty and every
+    Deferred that was outstanding fired in the `stop` step itself (with what: C01 says `ok` only if
+    acknowledged; everything else is an error) — for any state whose `_outstanding` has no duplicates. -/
+theorem C19_stop_fires_all (cfg : Cfg) (st : St) (wipe : Bool) (pout : Option ProdRes) (mouts : List (Rid × MetaRes))
+    (hv : stopValid st pout = true) (hn : st.outstanding.Nodup) :
+    (step cfg st (.stop wipe pout mouts)).1.outstanding = [] ∧
+    ∀ s ∈ st.outstanding, s ∈ firedSids (step cfg st (.stop wipe pout mouts)).2 :=
+  stop_fires_all cfg st wipe pout mouts hv hn
+
+/-- … and `_outstanding` never has duplicates in a reachable state, so the hypothesis above holds. -/
+theorem C19_outstanding_nodup (cfg : Cfg) (evs : List Ev) : (run cfg (St.init cfg) evs).1.outstanding.Nodup := by
+  suffices h : ∀ st, st.outstanding.Nodup ∧ (∀ s ∈ st.outstanding, s < st.nextSid) →
+      (run cfg st evs).1.outstanding.Nodup from h _ ⟨by simp [St.init], by simp [St.init]⟩
+  induction evs with
+  | nil => intro st h; exact h.1
+  | cons e rest ih =>
+    intro st h
+    simp only [run]
+    apply ih
+    obtain ⟨hn, hlt, _, _⟩ := outPlus_spec (cfg := cfg) (t := {}) st e ⟨h.1, h.2, by simp⟩
+    have fd := step_fd cfg st e
+    exact ⟨fd.nodup hn, fun s hs => hlt s (fd.sub s hs)⟩
+
+/-! Non-vacuity: a stop with a produce in flight whose cancel the client answers the way the real
+client does; the retry timer fires later; nothing goes out.  And: counters move and come back to zero through cancels. -/
 def exCfg : Cfg := Cfg.ofArgs 1 3 (1/4) true 10 0 (some 1) false
+def exCfg2 : Cfg := Cfg.ofArgs 1 5 (1/4) false 1 1 none false
+def exEvs2 : List Ev := [.metaSet 0 0 (some [0, 1]), .send 0 0 none [some 10]]
+example : stopValid (run exCfg2 (St.init exCfg2) exEvs2).1 (some (.failed [] [⟨⟨0, 0⟩, .tcancelled, true⟩])) = true := by
+  decide +kernel
+example : (run exCfg2 (St.init exCfg2) (exEvs2 ++ [.stop true (some (.failed [] [⟨⟨0, 0⟩, .tcancelled, true⟩])) [], .timer 0, .tick])).2
+    = [.produce 0 [⟨⟨0, 0⟩, [0]⟩], .cancelReq 0, .fire 0 (.err (.acancelled (some false))), .badOp, .badOp] := by
+  decide +kernel
 example : ((traceOf exCfg [.send 0 0 none [some 3, none], .send 1 1 none [some 5], .cancel 0]).map
     (fun s => (s.post.queue, s.post.msgCount, s.post.byteCount))) = [([0], 2, 3), ([0, 1], 3, 8), ([1], 1, 5)] := by
   decide +kernel
@@ -33,6 +77,9 @@ end Afkak.Props.C19
 /- OBLIGATIONS
 C19_accounting
 C19_accounting_state
+C19_stop_transmits_nothing
+C19_stop_fires_all
+C19_outstanding_nodup
 -/
 /- OPEN_STATEMENTS
 C19_dispatch_iff
